@@ -110,6 +110,20 @@ CLAIMS = {
     },
 }
 
+CLAIMS["C19"] = {
+    "technique": "contract-based deductive verification (Verus) of extracted real code (function + lifted statement)",
+    "text": "Partial, unbounded proof of two of the listed rules only: (1) the normalisation statement of ConfigFile::new "
+            "(lifted verbatim into a function, rule E3) puts the default locale first, keeps exactly the listed names plus "
+            "the default, and grows the list by at most one; (2) contain_duplicates returns None exactly when no name is "
+            "listed twice and otherwise exactly the set of names listed more than once.",
+    "note": "Not covered (outside both verifiers): TOML/serde deserialisation incl. required fields and the `inherits` "
+            "validation in CfgFileVisitor::visit_map (serde MapAccess), file selection, the call sites in ConfigFile::new. "
+            "Not shown: that a listed default is not appended again (vstd cannot name the temporary iterator of "
+            "`.iter().position(..)`). Assumed std contracts: slice::swap, Iterator::position, A2 "
+            "Option::get_or_insert_with(BTreeSet::new).insert(k); C1 closure contract annotation on `|l| l == &cfg.default`.",
+    "design_ref": "DESIGN.md section 8.5",
+}
+
 NOT_APPLICABLE = {
     "C01": "text -> tree -> tokens -> HTML: byte-offset &str slicing (no str offset theory in Verus, >240 s for 4 bytes in Kani), &mut tree rewriting, quote! output; no function on the path can carry a checkable contract",
     "C02": "relates the outputs of two code generators after rustc compiled them; token streams have no semantics in either verifier",
